@@ -163,6 +163,11 @@ class Verifier(Interp):
             lab, text = split_label(cond, exc)
             cv = eval_clause(self, text, vars, func.globs, old_vars=old, extra=self.spec_extra)
             if self.branch(cv):
+                # options["raises_ensures"] = {ExcName: [clauses]}: EXCEPTIONAL postconditions (state in which the callee raises), proved on
+                # the carrier's own raising paths (obligations <fn>/exc/<Name>/post/<label>) and assumed here before the exception propagates
+                for j, xc in enumerate((c.options.get("raises_ensures") or {}).get(exc, [])):
+                    xlab, xtext = split_label(xc, f"xpost{j}")
+                    self.assume(eval_clause(self, xtext, vars, func.globs, old_vars=old, extra=self.spec_extra))
                 raise ProgExc(_exc_class(exc))
         res = self.make_result(c, fr)
         vars["result"] = res
@@ -259,6 +264,12 @@ class Verifier(Interp):
                     lab, text = split_label(cond, name)
                     v = eval_clause(self, text, self.top_old, globs, old_vars=self.top_old, extra=self.spec_extra)
                     self.prove(f"{fn_label}/exc/{name}-only-when-allowed", v, "exception")
+                    xvars = dict(fr.vars)
+                    for k0 in params:
+                        xvars.setdefault(k0, params[k0])
+                    for j, xc in enumerate((c.options.get("raises_ensures") or {}).get(name, [])):  # exceptional postconditions
+                        xlab, xtext = split_label(xc, f"xpost{j}")
+                        self.prove(f"{fn_label}/exc/{name}/post/{xlab}", eval_clause(self, xtext, xvars, globs, old_vars=self.top_old, extra=self.spec_extra), "postcondition")
                 return
             self.exits += 1
             post_vars = dict(fr.vars)
